@@ -1,6 +1,7 @@
 import Pyxv.Model.Json
 import Pyxv.Model.EntitiesSpec
 import Pyxv.Model.EntitiesRefs
+import Pyxv.Model.EntitiesHeaders
 /-! Driver operations for the entities slice (C19): `entities.model` (interpreted, regenerated code),
 `entities.spec` (the documented table), `entities.ir` (what the translator produced, for the evidence). -/
 namespace Pyxv.Entities
@@ -35,7 +36,19 @@ def opsEntities (op : String) (j : Json) : Option (Except String Json) :=
       let root := getStrD j "root" "data"
       let ents ← rowsOfJson j "entities"
       let survey ← rowsOfJson j "survey"
-      match dealiasRows ents with
+      -- the sheet header as the implementation receives it (all columns, in order); without one: the keys
+      let hdr : List Str := match j.getObjVal? "entities_header" with
+        | .ok (.arr a) => a.toList.filterMap fun x => match x with | .str s => some s.toList | _ => none
+        | _ => headersOf [] ents
+      -- the colon-free, duplicate-free dealiasing the theorems of C19.lean start from must agree with the
+      -- full header loop wherever both answer
+      let legacyAgrees : Bool := match dealiasRows ents, dealiasSheet hdr ents with
+        | .ok a, .ok b => a == b
+        | _, _ => true
+      if !legacyAgrees then
+        pure (Json.mkObj [("outcome", "rejected"), ("kind", "legacy-disagrees")])
+      else
+      match dealiasSheet hdr ents with
       | .error e => pure (rejToJson e)
       | .ok ents' =>
         let settings : Cells := match j.getObjVal? "settings" with
